@@ -276,7 +276,7 @@ def run(ctx):
     explore_limit = 60000 if ctx.quick else 200000
     byname = {sc["name"]: sc for sc in scen}
 
-    # ---- 1. model level (tiny models, the cost is the JVM: two single-worker TLC processes at a time) ----------
+    # ---- 1. model level (tiny models, the cost is the JVM: three single-worker TLC processes at a time) ----------
     def account(mod, cfg, r, **kw):
         ctx.states += r.distinct
         ctx.transitions += r.generated
@@ -304,7 +304,7 @@ def run(ctx):
             lambda: job_check(byname["m4"], ("Begin", "MaskReadInDone", "MaskFetchOr")),
             lambda: job_mut(C2, "store"), lambda: job_mut(byname["min3"], "noin"), lambda: job_mut(byname["mov2"], "scanon")]
     jobs += [(lambda sc=sc: job_graph(sc)) for sc in scen]
-    with concurrent.futures.ThreadPoolExecutor(max_workers=2) as pool:
+    with concurrent.futures.ThreadPoolExecutor(max_workers=3) as pool:
         results = list(pool.map(lambda j: j(), jobs))
     graphs = []
     for res in results:
